@@ -360,12 +360,16 @@ func ruleDeleteAllocation(c *Ctx, rule string) {
 		// delete of the table in DeleteAllocation's body is guarded by nothing but the
 		// presence of an entry under that very key
 		nDel, onlyPresence := 0, true
+		var delKey ssa.Value
 		w.eachInstrDeep(del, func(in ssa.Instruction) {
 			if !isDelete(in) {
 				return
 			}
 			nDel++
 			call := in.(*ssa.Call)
+			if in.Parent() == del {
+				delKey = call.Call.Args[1]
+			}
 			for _, f := range w.factsAt(in) {
 				fine := false
 				var v ssa.Value
@@ -400,6 +404,9 @@ func ruleDeleteAllocation(c *Ctx, rule string) {
 					}
 				}
 				if !fine {
+					if os.Getenv("TURNCHECK_C06DEBUG") != "" {
+						fmt.Fprintf(os.Stderr, "C06.5 delete at %s: condition %s is not the presence of the entry\n", w.instrPos(in), w.factStr(f))
+					}
 					onlyPresence = false
 				}
 			}
@@ -423,6 +430,59 @@ func ruleDeleteAllocation(c *Ctx, rule string) {
 				return has && w.singleSiteCI(call.Call.StaticCallee()) == ssa.CallInstruction(call)
 			}, func(*ssa.BasicBlock) bool { return false })
 			okDel = reach
+			if !okDel && delKey != nil {
+				// ... or directly in the body: every path passes the delete or runs under the
+				// fact that the table holds nothing under that key
+				isLookup := func(v ssa.Value) bool {
+					v = stripIface(w.resolveLoad(v))
+					if ex, isE := v.(*ssa.Extract); isE {
+						v = ex.Tuple
+					}
+					lk, isL := v.(*ssa.Lookup)
+					if !isL {
+						return false
+					}
+					_, lf, isFL := fieldLoad(lk.X)
+					return isFL && lf == fld && w.sameKey(lk.Index, delKey)
+				}
+				absent := func(b *ssa.BasicBlock) bool {
+					for _, f := range w.factsAt(b.Instrs[0]) {
+						if f.Op == "true" && !f.Truth && isLookup(f.X) {
+							return true
+						}
+						if x, isNil, ok := nilFact(f); ok && isNil && isLookup(x) {
+							return true
+						}
+					}
+					return false
+				}
+				seen := map[*ssa.BasicBlock]bool{}
+				var visit func(b *ssa.BasicBlock) bool
+				visit = func(b *ssa.BasicBlock) bool {
+					if seen[b] {
+						return true
+					}
+					seen[b] = true
+					if absent(b) {
+						return true
+					}
+					for _, in := range b.Instrs {
+						if isDelete(in) {
+							return true
+						}
+					}
+					if len(b.Succs) == 0 {
+						return false
+					}
+					for _, s := range liveSuccs(b) {
+						if !visit(s) {
+							return false
+						}
+					}
+					return true
+				}
+				okDel = visit(del.Blocks[0])
+			}
 		}
 	}
 	if okDel {
